@@ -3,6 +3,7 @@ let () =
   | _ :: "arith" :: _ -> R_arith.run ()
   | _ :: "iter" :: fence :: fill :: _ -> R_iter.run (int_of_string fence) (fill = "1")
   | _ :: "poolexec" :: "small" :: _ -> R_pool.run_exec_small ()
+  | _ :: "poolexec" :: "ordered" :: n :: _ -> R_pool.run_exec_ordered (n = "1")
   | _ :: "poolexec" :: dbl :: _ -> R_pool.run_exec (dbl = "1")
   | _ :: "pool" :: _ -> R_pool.run ()
   | _ :: "stack" :: fence :: _ -> R_stack.run (int_of_string fence)
